@@ -78,7 +78,57 @@ fn all_ops_around(w: u32, len: usize, pos: usize) -> Vec<String> {
     for n in ns {
         ops.push(format!("extend_from_iter {}", show_list(distinct_words(w, n, 0x30))));
     }
+    // temporary views / copies (`as_view`, `as_mut_view`, `cloned`)
+    let c3 = (pow2(w) - 1) & 0xc3c3_c3c3_c3c3_c3c3;
+    for prog in [
+        "-".to_string(),
+        "read_s,read_q,remaining_s,remaining_q,exhausted_s,exhausted_q,pos,raw".to_string(),
+        format!("seek:0,read_q,seek:{:x},read_s,seek:{:x},pos", len, len + 1),
+        format!("write:{:x},space_left,full,into_reversed,extend_from_iter:1.2,raw", c3),
+    ] {
+        ops.push(format!("as_view {}", prog));
+    }
+    for kind in ["as_mut_view", "cloned"] {
+        for prog in [
+            "-".to_string(),
+            format!("write:{:x},raw", c3),
+            format!("write:1,write:2,read_s,space_left,full,raw"),
+            format!("into_reversed,write:{:x},read_s,read_q,pos,raw", c3),
+            format!("seek:0,extend_from_iter:5.6.7,raw,into_reversed,into_reversed,raw"),
+            format!("read_s,read_q,write:{:x},remaining_s,remaining_q,seek:{:x},write:7", c3, len),
+        ] {
+            ops.push(format!("{} {}", kind, prog));
+        }
+    }
     ops
+}
+
+/// a random view program in sub-op syntax
+fn random_prog(rng: &mut Rng, w: u32, lenhint: usize) -> String {
+    let n = rng.next() % 7;
+    if n == 0 {
+        return "-".into();
+    }
+    (0..n)
+        .map(|_| match rng.next() % 16 {
+            0..=2 => "read_s".to_string(),
+            3..=5 => "read_q".to_string(),
+            6..=8 => format!("write:{:x}", gen_word(rng, w)),
+            9 => {
+                let k = (rng.next() % 4) as usize;
+                if k == 0 {
+                    "extend_from_iter:-".to_string()
+                } else {
+                    format!("extend_from_iter:{}", gen_ws(rng, w, k).iter().map(|x| format!("{:x}", x)).collect::<Vec<_>>().join("."))
+                }
+            }
+            10 => (*rng.pick(&["remaining_s", "remaining_q", "exhausted_s", "exhausted_q", "space_left", "full", "pos"])).to_string(),
+            11..=12 => format!("seek:{:x}", rng.below(lenhint as u128 + 2)),
+            13 => "into_reversed".to_string(),
+            _ => "raw".to_string(),
+        })
+        .collect::<Vec<_>>()
+        .join(",")
 }
 
 fn gen_exhaustive_cursor(rng: &mut Rng, thorough: bool, out: &mut Vec<String>) {
@@ -116,6 +166,20 @@ fn gen_exhaustive_cursor(rng: &mut Rng, thorough: bool, out: &mut Vec<String>) {
                     // the other constructors
                     out.push(format!("{} {:x} | begin {} | raw | read_q | read_s | space_left", kind, w, show_list(buf.clone())));
                     out.push(format!("{} {:x} | end {} | raw | read_s | read_q | space_left", kind, w, show_list(buf.clone())));
+                    // `new_at_pos_mut`, `new_at_write_end_mut`, conversion traits (kinds for which the
+                    // constructor does not exist answer `bad-op` on both sides)
+                    out.push(format!("{} {:x} | at_mut {} {:x} | raw | read_s | read_q | write 5 | raw", kind, w, show_list(buf.clone()), pos));
+                    if pos == 0 {
+                        out.push(format!("{} {:x} | at_mut {} {:x} | raw", kind, w, show_list(buf.clone()), len + 1));
+                        out.push(format!("{} {:x} | end_mut {} | raw | read_s | read_q | write 5 | space_left | raw", kind, w, show_list(buf.clone())));
+                        for conv in ["into_read_s", "into_read_q", "into_seek_read_s", "into_seek_read_q",
+                                     "as_read_s", "as_read_q", "as_seek_read_s", "as_seek_read_q"] {
+                            out.push(format!(
+                                "{} {:x} | {} {} | raw | pos | remaining_s | remaining_q | read_s | read_q | seek {:x} | read_s | seek 0 | read_q | raw",
+                                kind, w, conv, show_list(buf.clone()), len
+                            ));
+                        }
+                    }
                 }
             }
             // refused constructor
@@ -192,7 +256,8 @@ fn random_op(rng: &mut Rng, w: u32, kind_class: u32, lenhint: usize) -> String {
             30 => "pos".into(),
             31..=33 => format!("seek {:x}", rng.below(lenhint as u128 + 2)),
             34 => format!("seek {:x}", rng.pick(&FAR)),
-            35..=36 => "into_reversed".into(),
+            35 => "into_reversed".into(),
+            36 => format!("{} {}", rng.pick(&["as_view", "as_mut_view", "cloned"]), random_prog(rng, w, lenhint)),
             37 => "roundtrip".into(),
             _ => "raw".into(),
         },
@@ -210,10 +275,11 @@ fn random_op(rng: &mut Rng, w: u32, kind_class: u32, lenhint: usize) -> String {
         _ => match r {
             0..=19 => format!("write {:x}", gen_word(rng, w)),
             20..=29 => { let n = (rng.next() % 5) as usize; format!("extend_from_iter {}", show_list(gen_ws(rng, w, n))) }
-            30..=32 => "full".into(),
-            33 => "read_s".into(),
-            34 => "space_left".into(),
-            35 => "seek 0".into(),
+            30..=31 => "full".into(),
+            32 => "read_s".into(),
+            33 => "space_left".into(),
+            34 => "seek 0".into(),
+            35..=37 => format!("into_inner {:x}", gen_word(rng, w)),
             _ => "raw".into(),
         },
     }
@@ -381,6 +447,10 @@ fn gen_exhaustive_callback(out: &mut Vec<String>) {
             "backend.callback {:x} | fallible {} | write a | raw | write b | write c | raw | write d | write e | raw | full",
             w, show_list(fa.clone())
         ));
+        out.push(format!(
+            "backend.callback {:x} | fallible {} | into_inner a | raw | write b | into_inner c | raw | into_inner d | extend_from_iter e,f | raw",
+            w, show_list(fa.clone())
+        ));
         for n in 0..=5usize {
             out.push(format!(
                 "backend.callback {:x} | fallible {} | extend_from_iter {} | raw | extend_from_iter {} | raw",
@@ -390,6 +460,7 @@ fn gen_exhaustive_callback(out: &mut Vec<String>) {
     }
     for &w in WS.iter() {
         out.push(format!("backend.callback {:x} | infallible | write 1 | extend_from_iter 2,3,4 | extend_from_iter - | raw | full | read_s | read_q | remaining_s | pos | seek 0 | space_left", w));
+        out.push(format!("backend.callback {:x} | infallible | into_inner 1 | write 2 | into_inner 3 | extend_from_iter 4,5 | into_inner 6 | raw | as_view - | cloned -", w));
     }
 }
 
@@ -419,6 +490,32 @@ fn gen_malformed(out: &mut Vec<String>) {
         "backend.callback 8 | infallible 1 | write 1",
         "backend.callback 8 | fallible zz | write 1",
         "backend.iter 8 | fallible 1ff,x,_ | read_s | read_s | read_s | read_s",
+        // views: unknown / nested / malformed sub-ops, views on backends that have none
+        "backend.cursor-owned 8 | at 1,2 1 | as_view roundtrip | raw",
+        "backend.cursor-owned 8 | at 1,2 1 | as_view bm_set:1 | raw",
+        "backend.cursor-owned 8 | at 1,2 1 | as_mut_view as_view | raw",
+        "backend.cursor-owned 8 | at 1,2 1 | as_view | raw",
+        "backend.cursor-owned 8 | at 1,2 1 | as_view write: | raw",
+        "backend.cursor-owned 8 | at 1,2 1 | as_view write:1:2 | raw",
+        "backend.cursor-owned 8 | at 1,2 1 | cloned extend_from_iter: | raw",
+        "backend.cursor-owned 8 | at 1,2 1 | cloned extend_from_iter:1..2 | raw",
+        "backend.cursor-owned 8 | at 1,2 1 | cloned seek:10000000000000000 | raw",
+        "backend.cursor-owned 8 | at 1,2 1 | as_view read_s, | raw",
+        "backend.cursor-owned 8 | at 1ff,2 1 | as_mut_view write:1ff,raw | raw",
+        "backend.vec 8 | data 1 | as_view read_s | as_mut_view - | cloned - | into_inner 1 | raw",
+        "backend.iter 8 | fallible 1 | as_view read_s | into_inner 1 | read_s",
+        "backend.cursor-owned 8 | at 1,2 1 | into_inner 1 | raw",
+        "backend.callback 8 | infallible | into_inner | raw",
+        "backend.callback 8 | infallible | into_inner zz | raw",
+        "backend.cursor-owned 8 | as_read_s 1,2 | raw",
+        "backend.cursor-slice 8 | at_mut 1,2 1 | raw",
+        "backend.cursor-slice 8 | end_mut 1,2 | raw",
+        "backend.cursor-owned 8 | at_mut 1,2 | raw",
+        "backend.cursor-owned 8 | into_read_s | raw",
+        // buf_mut misuse seen through a view
+        "backend.cursor-owned 8 | at 1,2,3,4 4 | bm_truncate 1 | as_view read_q,raw | as_view read_s | raw",
+        "backend.cursor-owned 8 | at 1,2,3,4 4 | bm_truncate 1 | as_mut_view write:5,space_left | raw",
+        "backend.cursor-owned 8 | at 1,2,3,4 4 | bm_truncate 1 | cloned into_reversed | raw",
         // numbers of 2^128 and above, and signs, are unparseable on both sides
         "backend.callback 8 | fallible 100000000000000000000000000000000 | write 1",
         "backend.callback 8 | fallible ffffffffffffffffffffffffffffffff | write 1 | raw",
